@@ -102,6 +102,18 @@ int ops_core(int n, char **a) {
         free(buf);
         return 1;
     }
+    if (isop(op, "iterhead") && n == 4) {
+        // the first n cells of the child iterator (any depth; cellToChildren runs exactly this loop)
+        H3Index h = pH(a[1]); int r = (int)pI(a[2]); int64_t lim = (int64_t)pI(a[3]);
+        if (lim < 0) lim = 0;
+        if (lim > 100000) lim = 100000;
+        H3Index *buf = xbuf((size_t)lim, sizeof(H3Index));
+        int64_t m = 0;
+        for (IterCellsChildren it = iterInitParent(h, r); it.h && m < lim; iterStepChild(&it)) buf[m++] = it.h;
+        printf("ok "); outHs(buf, m); printf("\n");
+        free(buf);
+        return 1;
+    }
     if ((isop(op, "cpos") || isop(op, "cposS")) && n == 3) {
         int64_t out = 0; H3Error e = H3_EXPORT(cellToChildPos)(pH(a[1]), (int)pI(a[2]), &out);
         if (e) outErr(e); else printf("ok %" PRId64 "\n", out);
